@@ -43,14 +43,29 @@ struct cfg {
 enum { SH_CTX_CHECKED, SH_REQ_VERIFIED, SH_RESP_VERIFIED, SH_TAMPERED, SH_TAMPER_REF_ACCEPTS, SH_COMPLETED, SH_NACKED, SH_ERRORED, SH_SILENT_NON, SH_SILENT_CON_DUP,
        SH_PLAIN_TO_HANDLER, SH_SRV_TWICE, SH_COMPLETED_AFTER_TAMPER, SH_N };
 static volatile uint64_t *SH;
+static int T_record;
 static void
 sh_add(int k, uint64_t v) {
-  if (SH)
+  if (SH && !T_record) /* the recording runs of the tamper family do not count */
     __sync_fetch_and_add(&SH[k], v);
 }
 
 /* ---- per execution state ---- */
 static struct cfg *C;
+/* tamper family (in-process enumeration): which datagram / byte / bit is modified in this case; recording: the dry run that
+ * lists the positions */
+static int T_id = -1, T_off, T_bit, T_isopt;
+struct tpos {
+  int id, off, isopt;
+};
+static struct tpos *T_rec;
+static int T_nrec, T_caprec;
+#define OBS(...)                                                                                                                                \
+  do {                                                                                                                                          \
+    vx_observe(__VA_ARGS__);                                                                                                                    \
+    if (C && C->fam == FAM_TAMPER && vx_in_replay())                                                                                            \
+      vx_trace(__VA_ARGS__);                                                                                                                    \
+  } while (0)
 static coap_context_t *cc, *sc;
 static coap_session_t *cs;
 static coap_address_t srv_addr, cli_addr;
@@ -308,7 +323,7 @@ on_send(const ns_dgram_t *d) {
   r->req = -1;
   ref_judge(r, d->data, d->len);
   nW++;
-  vx_observe("t=%llu %s TX #%d type=%d code=%d.%02d tkl=%zu len=%zu osc=%d kidctx=%d ref=%s inner=%d.%02d", (unsigned long long)ns_now(),
+  OBS("t=%llu %s TX #%d type=%d code=%d.%02d tkl=%zu len=%zu osc=%d kidctx=%d ref=%s inner=%d.%02d", (unsigned long long)ns_now(),
              dir ? "S" : "C", d->id, r->type, r->code >> 5, r->code & 31, r->tkl, d->len, r->has_osc, r->has_kidctx,
              r->has_osc ? r->why : "-", r->verified ? r->icode >> 5 : 0, r->verified ? r->icode & 31 : 0);
   if (in_tamper && r->has_osc)
@@ -452,7 +467,7 @@ hnd(coap_resource_t *r, coap_session_t *s, const coap_pdu_t *req, const coap_str
   coap_get_data(req, &n, &p);
   int code = coap_pdu_get_code(req);
   srv_calls++;
-  vx_observe("t=%llu SRV-HANDLER code=0.%02d payload=%zu cur=#%d", (unsigned long long)ns_now(), code, n, cur ? cur->id : -1);
+  OBS("t=%llu SRV-HANDLER code=0.%02d payload=%zu cur=#%d", (unsigned long long)ns_now(), code, n, cur ? cur->id : -1);
   if (in_tamper) {
     tamper_srv_calls++;
   } else if (!cur || cur->dir != 0 || !cur->has_osc) {
@@ -483,7 +498,7 @@ resp_hnd(coap_session_t *s, const coap_pdu_t *sent, const coap_pdu_t *rcv, const
   int code = coap_pdu_get_code(rcv);
   coap_bin_const_t t = coap_pdu_get_token(rcv);
   cli_calls++;
-  vx_observe("t=%llu CLI-HANDLER code=%d.%02d payload=%zu token=%s cur=#%d", (unsigned long long)ns_now(), code >> 5, code & 31, n, hx(t.s, t.length),
+  OBS("t=%llu CLI-HANDLER code=%d.%02d payload=%zu token=%s cur=#%d", (unsigned long long)ns_now(), code >> 5, code & 31, n, hx(t.s, t.length),
              cur ? cur->id : -1);
   if (t.length != sizeof APPTOK || memcmp(t.s, APPTOK, sizeof APPTOK))
     foreign_tok++;
@@ -513,7 +528,7 @@ nack_hnd(coap_session_t *s, const coap_pdu_t *sent, const coap_nack_reason_t rea
   (void)sent;
   (void)mid;
   nacks++;
-  vx_observe("t=%llu CLI-NACK reason=%d", (unsigned long long)ns_now(), reason);
+  OBS("t=%llu CLI-NACK reason=%d", (unsigned long long)ns_now(), reason);
 }
 
 static int
@@ -521,7 +536,7 @@ event_hnd(coap_session_t *s, coap_event_t ev) {
   (void)s;
   if (ev >= COAP_EVENT_OSCORE_DECRYPTION_FAILURE && ev <= COAP_EVENT_OSCORE_DECODE_ERROR) {
     osc_events++;
-    vx_observe("t=%llu CLI-EVENT 0x%x", (unsigned long long)ns_now(), ev);
+    OBS("t=%llu CLI-EVENT 0x%x", (unsigned long long)ns_now(), ev);
   }
   return 0;
 }
@@ -604,12 +619,13 @@ inject_tampered(const ns_dgram_t *d, int p, int bit, int is_opt) {
   snprintf(tamper_what, sizeof tamper_what, "%s of datagram #%d (%s %d.%02d%s), byte %d bit %d", is_opt ? "OSCORE option value" : "ciphertext", d->id,
            scratch.dir ? "server->client" : "client->server", g ? g->code >> 5 : 0, g ? g->code & 31 : 0, g && g->has_kidctx ? " +kid context" : "", p,
            bit);
-  vx_observe("   tamper: %s; reference: %s", tamper_what, scratch.verified ? "ACCEPTS" : scratch.why);
+  OBS("   tamper: %s; reference: %s", tamper_what, scratch.verified ? "ACCEPTS" : scratch.why);
   sh_add(SH_TAMPERED, 1);
   tamper_done = 1;
   if (scratch.verified) {
     /* the flip has no meaning for RFC 8613 (the reference unprotects the copy to the same message): not judged */
     sh_add(SH_TAMPER_REF_ACCEPTS, 1);
+    vxp_sample("%s: the reference unprotects the modified copy as well (%s): not judged", C->name, tamper_what);
     free(copy);
     return;
   }
@@ -643,7 +659,7 @@ inject_tampered(const ns_dgram_t *d, int p, int bit, int is_opt) {
 
 static int
 step(void) {
-  enum { EV_DELIVER, EV_TIMER, EV_DROP, EV_DUP, EV_TAMPER };
+  enum { EV_DELIVER, EV_TIMER, EV_DROP, EV_DUP };
   struct {
     int kind, idx;
   } ev[VX_MAXALT];
@@ -669,12 +685,32 @@ step(void) {
       if (ns_dups_done < 2)
         ev[n].kind = EV_DUP, ev[n].idx = j, cost[n++] = 1;
     }
-  } else if (budget > 0 && C->fam == FAM_TAMPER && nf > 0 && !tamper_done) {
+  } else if (C->fam == FAM_TAMPER && nf > 0 && !tamper_done) {
     ns_dgram_t *d = ns_inflight(0);
-    np = osc_positions(d->data, d->len, pos, 400, &nopt);
-    int chunks = (np + 15) / 16;
-    for (int k = 0; k < chunks && n < VX_MAXALT; k++)
-      ev[n].kind = EV_TAMPER, ev[n].idx = k, cost[n++] = 1;
+    if (T_record && !d->from_raw) {
+      np = osc_positions(d->data, d->len, pos, 400, &nopt);
+      for (int k = 0; k < np; k++) {
+        if (T_nrec == T_caprec)
+          T_rec = realloc(T_rec, sizeof *T_rec * (size_t)(T_caprec = T_caprec ? 2 * T_caprec : 256));
+        T_rec[T_nrec++] = (struct tpos){d->id, pos[k], k < nopt};
+      }
+    } else if (!T_record && d->id == T_id && !d->from_raw) {
+      /* the modified copy is handed over just before the genuine datagram, or just after it */
+      if (C->after) {
+        ns_dgram_t keep = *d;
+        keep.data = malloc(d->len);
+        memcpy(keep.data, d->data, d->len);
+        ns_deliver(0);
+        cur = NULL;
+        inject_tampered(&keep, T_off, T_bit, T_isopt);
+        free(keep.data);
+      } else
+        inject_tampered(d, T_off, T_bit, T_isopt);
+      cur = NULL;
+      check_chain(0, "after a tampered copy", 1);
+      check_chain(1, "after a tampered copy", 1);
+      return 1;
+    }
   }
   int c = vx_choose(n, cost, "step");
   switch (ev[c].kind) {
@@ -682,13 +718,13 @@ step(void) {
     ns_deliver(0);
     break;
   case EV_DUP:
-    vx_observe("   dup dgram#%d", ns_inflight(ev[c].idx)->id);
+    OBS("   dup dgram#%d", ns_inflight(ev[c].idx)->id);
     faults_taken++;
     dups_taken++;
     ns_duplicate(ev[c].idx);
     break;
   case EV_DROP:
-    vx_observe("   drop dgram#%d", ns_inflight(ev[c].idx)->id);
+    OBS("   drop dgram#%d", ns_inflight(ev[c].idx)->id);
     faults_taken++;
     drops_taken++;
     ns_drop(ev[c].idx);
@@ -696,30 +732,6 @@ step(void) {
   case EV_TIMER:
     ns_advance((uint64_t)ev[c].idx);
     break;
-  case EV_TAMPER: {
-    /* which byte of the chunk, which bit: free choices once the deviation is paid for */
-    int base = ev[c].idx * 16;
-    int inchunk = np - base < 16 ? np - base : 16;
-    uint8_t zero[16] = {0};
-    int bi = vx_choose(inchunk, zero, "tamper-byte");
-    int p = base + bi;
-    int bit = (p * 3 + 1) & 7;
-    if (vx_is_thorough())
-      bit = vx_choose(8, zero, "tamper-bit");
-    ns_dgram_t *d = ns_inflight(0);
-    if (C->after) {
-      /* genuine first (keep a copy of what was sent), then the modified copy */
-      ns_dgram_t keep = *d;
-      keep.data = malloc(d->len);
-      memcpy(keep.data, d->data, d->len);
-      ns_deliver(0);
-      cur = NULL;
-      inject_tampered(&keep, pos[p], bit, p < nopt);
-      free(keep.data);
-    } else
-      inject_tampered(d, pos[p], bit, p < nopt);
-    break;
-  }
   }
   cur = NULL;
   cur_unknown = 0;
@@ -789,7 +801,7 @@ run(void *arg) {
       coap_add_data(pdu, sizeof REQ_PAYLOAD - 1, (const uint8_t *)REQ_PAYLOAD);
     coap_mid_t m = coap_send(cs, pdu);
     submitted = m != COAP_INVALID_MID;
-    vx_observe("t=%llu SUBMIT -> %s", (unsigned long long)ns_now(), submitted ? "sent" : "refused");
+    OBS("t=%llu SUBMIT -> %s", (unsigned long long)ns_now(), submitted ? "sent" : "refused");
     nseen_ctx = 0;
     check_chain(0, "after the first send", 1);
     int steps = 0;
@@ -875,6 +887,44 @@ add(struct cfg c) {
   cfgs[ncfgs++] = c;
 }
 
+/* ---- tamper family: in-process enumeration over (configuration, protected datagram, byte, bit) ---- */
+struct tspace {
+  struct cfg c;
+  struct tpos *pos; /* every byte of an OSCORE option value / ciphertext of the fault-free exchange, in wire order */
+  int npos;
+  int bits;         /* 8: every bit; 1: one bit per byte (rotating) */
+  uint64_t first;   /* index of this configuration's first case */
+};
+static struct tspace *TS;
+static int nTS;
+static uint64_t tamper_total;
+
+static void
+tamper_case(uint64_t idx, void *arg) {
+  (void)arg;
+  int k = 0;
+  while (k + 1 < nTS && TS[k + 1].first <= idx)
+    k++;
+  struct tspace *t = &TS[k];
+  uint64_t r = idx - t->first;
+  int e = (int)(r / (unsigned)t->bits), bit = t->bits == 8 ? (int)(r % 8) : (e * 3 + 1) & 7;
+  T_record = 0;
+  T_id = t->pos[e].id;
+  T_off = t->pos[e].off;
+  T_isopt = t->pos[e].isopt;
+  T_bit = bit;
+  if (vx_in_replay())
+    vx_trace("case %llu: %s, datagram #%d byte %d bit %d", (unsigned long long)idx, t->c.name, T_id, T_off, T_bit);
+  run(&t->c);
+  if (!tamper_done)
+    vx_fail("harness:tamper-target-not-reached", "%s: datagram #%d of the recorded fault-free exchange did not come up again", t->c.name, T_id);
+  vxp_count(0, 1);
+  vxp_distinct(vx_fnv(&idx, sizeof idx, VX_FNV0));
+  if (idx % 9973 == 17)
+    vxp_sample("%s: %s -> rejected by the recipient (no handler call, no protected answer); the exchange %s afterwards", t->c.name, tamper_what,
+               cli_ok205 ? "still completed" : "did not complete");
+}
+
 int
 main(int argc, char **argv) {
   vx_main_init(argc, argv, "C14");
@@ -896,48 +946,82 @@ main(int argc, char **argv) {
               struct cfg c = {.salt = salt, .idctx = idctx, .ids = ids, .con = con, .payload = payload, .b12 = b12, .fam = FAM_FAULT, .bound = T ? 2 : 1};
               add(c);
             }
-  for (int salt = 0; salt < 2; salt++)
-    for (int idctx = 0; idctx < 2; idctx++)
-      for (int ids = 0; ids < IDS_N; ids++)
-        for (int con = 1; con >= 0; con--)
-          for (int payload = 0; payload < 2; payload++)
-            for (int b12 = 1; b12 >= 0; b12--)
-              for (int after = 0; after < 2; after++) {
-                if (!T && (after || (con + payload + b12 + salt + idctx + ids) % 2))
-                  continue; /* quick: half of the configurations, copy-before only */
-                struct cfg c = {.salt = salt, .idctx = idctx, .ids = ids, .con = con, .payload = payload, .b12 = b12, .fam = FAM_TAMPER, .bound = 1,
-                                .after = after};
-                add(c);
-              }
   vx_ev_rule("stage c14b2: libcoap client session + libcoap server context, both rfc8613_b_2=true, one request over netsim; product of master salt "
              "{absent, 8 bytes} x configured ID Context {absent, 4 bytes} x ids {01/02, empty client Sender ID, empty server Sender ID} x {CON, NON} x "
              "{GET, PUT with payload} x Appendix B.1.2 {on, off}; family faults: every schedule with <= bound (quick 1, thorough 2) drop / duplicate "
-             "deviations of any of the first 40 datagrams, timers fire when the network is idle; family tamper: one flipped bit (quick: one bit per "
-             "byte on half of the configurations, thorough: every bit, copy before / after the genuine datagram) in the OSCORE option value or the "
-             "ciphertext of every protected datagram of the exchange; reference = refoscore watching the wire + re-derivation of every context in "
-             "either endpoint's chain after every event; non-trivial = a deviation was taken");
+             "deviations of any of the first 40 datagrams, timers fire when the network is idle; family tamper (space c14b2:tamper): for every "
+             "configuration and every protected datagram of its fault-free exchange, a copy with one flipped bit in the OSCORE option value or the "
+             "ciphertext is handed to the recipient just before (or just after) the genuine datagram -- thorough: every bit, both orders; quick: "
+             "one bit per byte on every second configuration (every bit on two), copy-after on six configurations; reference = refoscore watching "
+             "the wire + re-derivation of every context in either endpoint's chain after every event; non-trivial = a deviation was taken");
   vx_ev_assumption("ID1, R2, R3 and Echo values come from libcoap's PRNG hook (netsim's deterministic generator); the reference learns them from the kid "
                    "context fields on the wire only");
   vx_ev_assumption("both contexts use COAP_BLOCK_USE_LIBCOAP (libcoap re-sends the request in Appendix B.2 / B.1.2 from its lg_crcv copy, which exists "
                    "only in this mode, as in coap-client)");
-  vx_ev_assumption("under loss / duplication only safety is judged (handlers run for reference-verifiable datagrams only) plus: a Confirmable exchange "
-                   "ends with a response or a NACK; after a tampered copy liveness is not judged");
+  vx_ev_assumption("under loss / duplication only safety is judged (handlers run for reference-verifiable datagrams only) plus: after a lost datagram "
+                   "a Confirmable exchange ends with a response or a NACK; after a duplicated datagram or a tampered copy liveness is not judged "
+                   "(counted in b2.con_exchanges_silent_after_duplicate)");
   for (int i = 0; i < ncfgs; i++)
     if (vx_replay_if_match(cfgs[i].name, run, &cfgs[i]))
       return 0;
+  if (!vx_replay_path()) {
+    /* (before the recording runs below: the workers are forked from this process, the smaller the better) */
+    struct vx_config *vcs = calloc((size_t)ncfgs, sizeof *vcs);
+    void **args = calloc((size_t)ncfgs, sizeof *args);
+    for (int i = 0; i < ncfgs; i++) {
+      vcs[i] = (struct vx_config){.scenario = cfgs[i].name, .bound = cfgs[i].bound, .leakcheck = 1, .exec_timeout_s = 40};
+      args[i] = &cfgs[i];
+    }
+    struct vx_scn_stats st;
+    vx_explore_multi("c14b2:faults", vcs, args, ncfgs, run, 0, &st);
+    free(vcs);
+    free(args);
+  }
+  int nfault = ncfgs;
+  /* tamper family: the positions come from a recording run of the fault-free exchange of each configuration */
+  for (int i = 0; i < nfault; i++)
+    for (int after = 0; after < 2; after++) {
+      struct cfg c = cfgs[i];
+      c.fam = FAM_TAMPER;
+      c.bound = 0;
+      c.after = after;
+      /* every bit: thorough everywhere; quick on the configurations with all features on / off.  Else one bit per byte */
+      int all_bits = T || (c.salt == c.idctx && c.idctx == c.payload && c.payload == c.b12 && c.con && c.ids == IDS_1_1 && !after);
+      if (!T && !all_bits && (after ? i % 16 != 5 : i % 2))
+        continue; /* quick: every second configuration, the copy-after order on six of them */
+      snprintf(c.name, sizeof c.name, "c14b2:tamper:salt=%d,idctx=%d,ids=%s,%s,payload=%d,b12=%d,%s", c.salt, c.idctx, idsname[c.ids],
+               c.con ? "con" : "non", c.payload, c.b12, after ? "copy-after" : "copy-before");
+      TS = realloc(TS, sizeof *TS * (size_t)(nTS + 1));
+      struct tspace *t = &TS[nTS];
+      t->c = c;
+      T_record = 1;
+      T_rec = NULL;
+      T_nrec = T_caprec = 0;
+      T_id = -1;
+      run(&t->c);
+      T_record = 0;
+      t->pos = T_rec;
+      t->npos = T_nrec;
+      t->bits = all_bits ? 8 : 1;
+      t->first = tamper_total;
+      tamper_total += (uint64_t)t->npos * (unsigned)t->bits;
+      if (t->npos)
+        nTS++;
+    }
+  if (vxp_replay_if_match("c14b2:tamper", tamper_case, NULL))
+    return 0;
   if (vx_replay_path()) {
     fprintf(stderr, "replay file does not match any scenario\n");
     return 2;
   }
-  struct vx_config *vcs = calloc((size_t)ncfgs, sizeof *vcs);
-  void **args = calloc((size_t)ncfgs, sizeof *args);
-  for (int i = 0; i < ncfgs; i++) {
-    vcs[i] = (struct vx_config){.scenario = cfgs[i].name, .bound = cfgs[i].bound, .leakcheck = 1, .exec_timeout_s = 40};
-    args[i] = &cfgs[i];
-  }
-  struct vx_scn_stats st;
-  vx_explore_multi("c14b2:all", vcs, args, ncfgs, run, 0, &st);
-  vx_ev_int("b2.scenarios", ncfgs);
+  struct vxp_config xc = {.space = "c14b2:tamper", .total = tamper_total, .chunk = 64};
+  struct vxp_stats xs;
+  vxp_enumerate(&xc, tamper_case, NULL, &xs);
+  vx_ev_add_states((long long)xs.done, (long long)xs.done, (long long)xs.done);
+  vx_ev_add_evals((long long)xs.done, (long long)vxp_distinct_count());
+  vx_ev_int("b2.fault_scenarios", ncfgs);
+  vx_ev_int("b2.tamper_configurations", nTS);
+  vx_ev_int("b2.tamper_cases", (long long)xs.done);
   if (SH) {
     vx_ev_int("b2.contexts_rederived_by_reference", (long long)SH[SH_CTX_CHECKED]);
     vx_ev_int("b2.protected_requests_verified_by_reference", (long long)SH[SH_REQ_VERIFIED]);
